@@ -208,8 +208,9 @@ class EditMedia(HTMLHandlerBase):
         login_required(permission=models.Group.MEDIA),
     ]
 
-    @classmethod
-    def next_url(cls, spk: int, **kwargs) -> str:
+    @staticmethod
+    def next_url(*args, **kwargs) -> str:
+        # called by csrf_token_required with the arguments of the view
         return flask.url_for('view-stream', spk=current_stream.pk)
 
     def get(self, spk: int, mfid: int) -> flask.Response:
